@@ -3,6 +3,7 @@
 // this one adds what it cannot see: data races on the real atomics, many threads, long ranges, all IntT widths.
 #include <stdint.h>
 
+#include <atomic>
 #include <functional>
 #include <unordered_set>
 #include <vector>
@@ -13,10 +14,14 @@
 
 using namespace verif;
 
-// case: n = [variant, type, threads, start(raw), count, block, hit_mod, hit_rem, repetitions]
+// case: n = [variant, type, threads, start(raw), count, block, hit_mod, hit_rem, repetitions, rendezvous]
 //   callback returns true for values whose offset from start satisfies off % hit_mod == hit_rem (hit_mod 0: never)
+//   rendezvous: a callback about to return true first waits (bounded spin, <= 3 ms) until a second worker is inside
+//   a true callback as well, so that two hits are reported at the same moment - the situation in which unsynchronised
+//   access to the shared result or cursor becomes a data race ThreadSanitizer can see. The wait only steers timing;
+//   the oracle does not depend on it.
 struct Cfg {
-  uint64_t variant, type, threads, start, count, block, hit_mod, hit_rem, reps;
+  uint64_t variant, type, threads, start, count, block, hit_mod, hit_rem, reps, rendezvous;
 };
 static const char* kVariant[3] = {"range", "blocks", "multi"};
 static const char* kType[5] = {"u8", "u16", "u32", "u64", "s64"};
@@ -31,6 +36,8 @@ static void run_typed(const Cfg& c) {
     // one private log per thread number: if two workers ever shared a thread_num, TSan reports the race
     std::vector<std::vector<uint64_t>> logs(c.threads);
     bool bad_thread_num = false;
+    std::atomic<int> inside_hit(0), arrived(0);
+    std::vector<uint8_t> seen_thread(c.threads, 0); // per-thread flag, written only by that thread
     std::function<bool(IntT, size_t)> fn = [&](IntT v, size_t tn) -> bool {
       uint64_t off = static_cast<uint64_t>(static_cast<U>(static_cast<U>(v) - static_cast<U>(start)));
       if (tn >= c.threads) {
@@ -38,7 +45,25 @@ static void run_typed(const Cfg& c) {
         return false;
       }
       if (logs[tn].size() < 200000) logs[tn].push_back(off);
-      return c.hit_mod != 0 && (off % c.hit_mod) == c.hit_rem;
+      // start gate: the first worker to get a value waits (bounded, <= 1 ms) for a second worker to arrive, so the
+      // run really is concurrent instead of one thread finishing the range before the others have started
+      if (!seen_thread[tn]) {
+        seen_thread[tn] = 1;
+        arrived.fetch_add(1);
+      }
+      if (c.threads >= 2 && c.count >= 2 && arrived.load() < 2) {
+        uint64_t t0 = phosg::now();
+        while (arrived.load() < 2 && phosg::now() - t0 < 1000) {
+        }
+      }
+      bool hit = c.hit_mod != 0 && (off % c.hit_mod) == c.hit_rem;
+      if (hit && c.rendezvous && c.threads >= 2) {
+        inside_hit.fetch_add(1);
+        uint64_t t0 = phosg::now();
+        while (inside_hit.load() < 2 && phosg::now() - t0 < 3000) {
+        }
+      }
+      return hit;
     };
     uint64_t ret_off = 0;
     std::vector<uint64_t> ret_set;
@@ -81,13 +106,14 @@ static void run_typed(const Cfg& c) {
       VCHECK(ret_off < c.count && (ret_off % c.hit_mod) == c.hit_rem && seen[ret_off], cat("hit-result:", tag), "returned start+", ret_off, " for which the callback did not return true");
     }
     if (busy_threads >= 2) ctx().cls("runs-with->=2-busy-threads");
+    if (c.rendezvous && hits >= 2) ctx().cls("runs-with-simultaneous-hits");
     ctx().cls("runs");
   }
   if (c.threads >= 2 && c.count >= 2) ctx().nontrivial_case();
 }
 
 static void run_stress(const Case& k) {
-  Cfg c{k.u(0), k.u(1), k.u(2), k.u(3), k.u(4), k.u(5), k.u(6), k.u(7), k.u(8)};
+  Cfg c{k.u(0), k.u(1), k.u(2), k.u(3), k.u(4), k.u(5), k.u(6), k.u(7), k.u(8), k.n.size() > 9 ? k.u(9) : 0};
   if (c.variant > 2 || c.type > 4 || c.threads < 1 || c.threads > 16 || c.count > 5000 || c.reps > 1000) throw std::logic_error("configuration outside the generated domain");
   if (c.variant != 0 && (c.block == 0 || c.count % c.block)) throw std::logic_error("block must divide the range");
   switch (c.type) {
@@ -137,8 +163,16 @@ static Case gen_stress() {
     default: c.start = (c.type == 4) ? static_cast<uint64_t>(-static_cast<int64_t>(vg::below(c.count + 2))) : (tmax - c.count > 1000 ? vg::below(1000) : 0); break;
   }
   c.reps = c.count <= 64 ? 20 : 3;
+  c.rendezvous = 0;
+  if (c.variant != 2 && c.threads >= 2 && c.count >= 2 && vg::chance(1, 4)) {
+    // simultaneous hits: every value is a hit and the first two workers report together
+    c.hit_mod = 1;
+    c.hit_rem = 0;
+    c.rendezvous = 1;
+    c.reps = 6;
+  }
   Case k("stress");
-  k.N(c.variant).N(c.type).N(c.threads).N(c.start).N(c.count).N(c.block).N(c.hit_mod).N(c.hit_rem).N(c.reps);
+  k.N(c.variant).N(c.type).N(c.threads).N(c.start).N(c.count).N(c.block).N(c.hit_mod).N(c.hit_rem).N(c.reps).N(c.rendezvous);
   return k;
 }
 
